@@ -115,6 +115,32 @@ def main():
         except Exception as e:  # noqa
             pk["other_errors"] += 1
             res["failures"].append(dict(desc, what="kernel raised %s: %s" % (type(e).__name__, e), other=True))
+    # through the accessor: the output buffer of the interpolation kernel is sized by the accessor glue (one cell per distinct daily
+    # label), independently of the number of observations
+    import xarray as xr
+    from kernel_cases import tinterp_case
+    for (nobs, gap, nper) in [(6, 8, 10), (4, 16, 10), (5, 10, 10), (9, 5, 7)]:
+        x, template, labels, tout = tinterp_case(rng, nobs, gap, nper)
+        pk = res["per_kernel"].setdefault("whitint (accessor)", dict(runs=0, index_errors=0, poison_diffs=0, other_errors=0))
+        pk["runs"] += 1
+        res["runs"] += 1
+        desc = dict(kernel="whitint (accessor)", tag="obs=%d days=%d periods=%d" % (len(x), len(template), len(tout)),
+                    args=[brief(x), brief(template), brief(labels)])
+        try:
+            cube = np.stack([x, x[::-1].copy(), x])[:, None, :]
+            da = xr.DataArray(cube, dims=("y", "x", "time"))
+            r = da.hdc.whit.whitint(labels, template).values
+            want = np.stack([K("tinterpolate", "tinterpolate")(cube[i, 0], template, labels, tout) for i in range(3)])[:, None, :]
+            if r.shape != want.shape or not np.array_equal(r, want):
+                pk["poison_diffs"] += 1
+                res["failures"].append(dict(desc, what="whitint through the accessor differs from the kernel on a correctly sized output (%s vs %s): "
+                                                       "output cells not written / wrong output length" % (list(r.shape), list(want.shape))))
+        except IndexError as e:
+            pk["index_errors"] += 1
+            res["failures"].append(dict(desc, what="out-of-bounds access (IndexError from the bounds-checked kernel) through the whitint accessor: %s" % e))
+        except Exception as e:  # noqa
+            pk["other_errors"] += 1
+            res["failures"].append(dict(desc, what="whitint accessor raised %s: %s" % (type(e).__name__, e), other=True))
     # controls: the harness must see a real out-of-bounds access and a real unwritten cell
     from numba import njit
 
